@@ -1,14 +1,8 @@
-import NloptModel.Model.Api
+import NloptModel.Model.ApiOps
 /-! Line-protocol driver for the S-api correspondence stream: consumes the operation lines that
     `harness/api.c` executes on the real library and prints the same canonical result lines. -/
 namespace Nlopt.ApiDrv
 open Nlopt
-
-structure World where
-  as : AS := {}
-  slots : List (Option Obj) := List.replicate 8 none
-  caps : AlgCaps := { ineqOk := [], eqOk := [] }
-  deriving Inhabited
 
 def hexList : Option (List F64) → String
   | none => "-"
@@ -79,64 +73,84 @@ def stateStr (w : World) : String :=
     | some o => some s!" |o{i}={snapChain o.chain}"
     | none => none)
 
-def slotIdx (t : String) : Option Nat :=
+def slotArg (t : String) : Option Nat :=
   if t.startsWith "o" then (t.drop 1).toString.toNat? else none
-
-def getSlot (w : World) (t : String) : Option Obj :=
-  match slotIdx t with
-  | some i => (w.slots.getD i none)
-  | none => none
-
-def setSlot (w : World) (t : String) (o : Option Obj) : World :=
-  match slotIdx t with
-  | some i => { w with slots := w.slots.set i o }
-  | none => w
-
-/-- result of one op on the model -/
-inductive Ret where
-  | code (r : Int)
-  | ptr (ok : Bool)
-  | void
-  | text (s : String)
-
-def finishLine (w : World) (r : Ret) (out : Option (List F64)) : World × String :=
-  let head := match r with
-    | .code c => toString c
-    | .ptr ok => if ok then "ptr" else "null"
-    | .void => "-"
-    | .text s => s
-  let o := match r, out with
-    | .code 1, some l => " out=" ++ hexList (some l)
-    | _, _ => ""
-  let evs := "[" ++ ",".intercalate (w.as.evs.map (evStr w)) ++ "]"
-  ({ w with as := { w.as with evs := [], failIn := 0, mcFailIn := 0 } }, head ++ o ++ " ev=" ++ evs ++ stateStr w)
-
-/-- apply a core-level function to the object in a slot (NULL handle → `nullRet`) -/
-def onCore (w : World) (t : String) (nullRet : Int)
-    (f : AS → Core → AS × Core × Int) : World × Ret :=
-  match getSlot w t with
-  | none => (w, .code nullRet)
-  | some o =>
-    let (s, c, r) := f w.as o.core
-    (setSlot { w with as := s } t (some { o with core := c }), .code r)
-
-def onCoreOut (w : World) (t : String)
-    (f : AS → Core → AS × Core × Int × List F64) : World × Ret × Option (List F64) :=
-  match getSlot w t with
-  | none => (w, .code rINVALID, none)
-  | some o =>
-    let (s, c, r, out) := f w.as o.core
-    (setSlot { w with as := s } t (some { o with core := c }), .code r, some out)
 
 def nameArg (t : String) : Option String := if t == "null" then none else some t
 
-def step (A : Arith) (w : World) (line : String) : World × String :=
-  let toks := (line.trimAscii.toString.splitOn " ").filter (· ≠ "")
+/-- parse one protocol line into an operation -/
+def parseOp (toks : List String) : Option Op :=
   let nat (t : String) : Nat := t.toNat?.getD 0
   let int (t : String) : Int := t.toInt?.getD 0
   let hx (t : String) : F64 := (F64.ofHex? t).getD F64.zero
   let lst (t : String) : Option (List F64) := (parseList t).getD none
-  let fin (p : World × Ret) := finishLine p.1 p.2 none
+  match toks with
+  | ["oracle", k] => some (.oracle (nat k))
+  | ["mcfail", k] => some (.mcfail (nat k))
+  | ["create", t, alg, n] => some (.create ((slotArg t).getD 0) (int alg) (nat n))
+  | ["destroy", t] => some (.destroy (slotArg t))
+  | ["copy", src, dst] => some (.copy (slotArg src) ((slotArg dst).getD 0))
+  | ["set_min", t, f, d] => some (.setObjective (slotArg t) (nat f) 0 (nat d) false)
+  | ["set_max", t, f, d] => some (.setObjective (slotArg t) (nat f) 0 (nat d) true)
+  | ["set_pmin", t, f, p, d] => some (.setObjective (slotArg t) (nat f) (nat p) (nat d) false)
+  | ["set_pmax", t, f, p, d] => some (.setObjective (slotArg t) (nat f) (nat p) (nat d) true)
+  | ["set_lb", t, l] => some (.setLb (slotArg t) (lst l))
+  | ["set_ub", t, l] => some (.setUb (slotArg t) (lst l))
+  | ["set_lb1", t, x] => some (.setLb1 (slotArg t) (hx x))
+  | ["set_ub1", t, x] => some (.setUb1 (slotArg t) (hx x))
+  | ["set_lbi", t, i, x] => some (.setLbi (slotArg t) (int i) (hx x))
+  | ["set_ubi", t, i, x] => some (.setUbi (slotArg t) (int i) (hx x))
+  | ["get_lb", t] => some (.getLb (slotArg t) false)
+  | ["get_ub", t] => some (.getUb (slotArg t) false)
+  | ["get_xtol_abs", t] => some (.getXtolAbs (slotArg t) false)
+  | ["get_xw", t] => some (.getXw (slotArg t) false)
+  | ["get_lb_null", t] => some (.getLb (slotArg t) true)
+  | ["get_ub_null", t] => some (.getUb (slotArg t) true)
+  | ["get_xtol_abs_null", t] => some (.getXtolAbs (slotArg t) true)
+  | ["get_xw_null", t] => some (.getXw (slotArg t) true)
+  | ["add_ineq", t, f, d, tol] => some (.addCon (slotArg t) false 1 false (nat f) 0 (nat d) (some [hx tol]))
+  | ["add_eq", t, f, d, tol] => some (.addCon (slotArg t) true 1 false (nat f) 0 (nat d) (some [hx tol]))
+  | ["add_pineq", t, f, p, d, tol] => some (.addCon (slotArg t) false 1 false (nat f) (nat p) (nat d) (some [hx tol]))
+  | ["add_peq", t, f, p, d, tol] => some (.addCon (slotArg t) true 1 false (nat f) (nat p) (nat d) (some [hx tol]))
+  | ["add_ineqm", t, m, f, d, tol] => some (.addCon (slotArg t) false (nat m) true (nat f) 0 (nat d) (lst tol))
+  | ["add_eqm", t, m, f, d, tol] => some (.addCon (slotArg t) true (nat m) true (nat f) 0 (nat d) (lst tol))
+  | ["rm_ineq", t] => some (.rmIneq (slotArg t))
+  | ["rm_eq", t] => some (.rmEq (slotArg t))
+  | ["set_stopval", t, x] => some (.setScalar (slotArg t) (.stopval (hx x)))
+  | ["set_ftol_rel", t, x] => some (.setScalar (slotArg t) (.ftolRel (hx x)))
+  | ["set_ftol_abs", t, x] => some (.setScalar (slotArg t) (.ftolAbs (hx x)))
+  | ["set_xtol_rel", t, x] => some (.setScalar (slotArg t) (.xtolRel (hx x)))
+  | ["set_maxtime", t, x] => some (.setScalar (slotArg t) (.maxtime (hx x)))
+  | ["set_maxeval", t, k] => some (.setScalar (slotArg t) (.maxeval (int k)))
+  | ["set_pop", t, k] => some (.setScalar (slotArg t) (.pop (nat k)))
+  | ["set_vs", t, k] => some (.setScalar (slotArg t) (.vs (nat k)))
+  | ["set_force_stop", t, k] => some (.setScalar (slotArg t) (.forceStop (int k)))
+  | ["force_stop", t] => some (.setScalar (slotArg t) (.forceStop 1))
+  | ["set_xtol_abs", t, l] => some (.setXtolAbs (slotArg t) (lst l))
+  | ["set_xtol_abs1", t, x] => some (.setXtolAbs1 (slotArg t) (hx x))
+  | ["set_xw", t, l] => some (.setXw (slotArg t) (lst l))
+  | ["set_xw1", t, x] => some (.setXw1 (slotArg t) (hx x))
+  | ["set_dx", t, l] => some (.setDx (slotArg t) (lst l))
+  | ["set_dx1", t, x] => some (.setDx1 (slotArg t) (hx x))
+  | ["set_default_dx", t, l] => some (.setDefaultDx (slotArg t) (lst l))
+  | ["get_dx", t, l] => some (.getDx (slotArg t) (lst l))
+  | ["set_munge", t, d, c] => some (.setMunge (slotArg t) (nat d ≠ 0) (nat c ≠ 0))
+  | ["set_param", t, nm, x] => some (.setParam (slotArg t) (nameArg nm) (hx x))
+  | ["set_param_long", t, x] => some (.setParam (slotArg t) (some (String.ofList (List.replicate 1999 'a'))) (hx x))
+  | ["set_local", t, l] => some (.setLocal (slotArg t) (slotArg l))
+  | _ => none
+
+def finishLine (w : World) (head : String) (code1 : Bool) (out : Option (List F64)) : World × String :=
+  let o := match code1, out with
+    | true, some l => " out=" ++ hexList (some l)
+    | _, _ => ""
+  let evs := "[" ++ ",".intercalate (w.as.evs.map (evStr w)) ++ "]"
+  ({ w with as := { w.as with evs := [] } }, head ++ o ++ " ev=" ++ evs ++ stateStr w)
+
+def step (A : Arith) (w : World) (line : String) : World × String :=
+  let toks := (line.trimAscii.toString.splitOn " ").filter (· ≠ "")
+  let nat (t : String) : Nat := t.toNat?.getD 0
+  let hx (t : String) : F64 := (F64.ofHex? t).getD F64.zero
   match toks with
   | ["sizes", a, b, c] =>
     ({ w with as := { w.as with sz := { opt := nat (a.drop 4).toString, con := nat (b.drop 4).toString, par := nat (c.drop 4).toString } } }, "")
@@ -146,111 +160,43 @@ def step (A : Arith) (w : World) (line : String) : World × String :=
   | ["history", _] =>
     ({ w with as := { w.as with next := 0, nextData := 1000, evs := [], live := [], failIn := 0, mcFailIn := 0 },
               slots := List.replicate 8 none }, line.trimAscii.toString)
-  | ["oracle", k] => ({ w with as := { w.as with failIn := nat k } }, "-")
-  | ["mcfail", k] => ({ w with as := { w.as with mcFailIn := nat k } }, "-")
-  | ["create", t, alg, n] =>
-    let (s, o) := create A w.as (int alg) (nat n)
-    finishLine (setSlot { w with as := s } t o) (.ptr o.isSome) none
-  | ["destroy", t] =>
-    match getSlot w t with
-    | none => finishLine w .void none
-    | some o => finishLine (setSlot { w with as := destroy w.as o } t none) .void none
-  | ["copy", src, dst] =>
-    match getSlot w src with
-    | none => finishLine (setSlot w dst none) (.ptr false) none
-    | some o =>
-      let (s, n) := copy w.as o
-      finishLine (setSlot { w with as := s } dst n) (.ptr n.isSome) none
-  | ["set_min", t, f, d] => fin (onCore w t rINVALID fun s c => setObjective s c (nat f) 0 (nat d) false)
-  | ["set_max", t, f, d] => fin (onCore w t rINVALID fun s c => setObjective s c (nat f) 0 (nat d) true)
-  | ["set_pmin", t, f, p, d] => fin (onCore w t rINVALID fun s c => setObjective s c (nat f) (nat p) (nat d) false)
-  | ["set_pmax", t, f, p, d] => fin (onCore w t rINVALID fun s c => setObjective s c (nat f) (nat p) (nat d) true)
-  | ["set_lb", t, l] => fin (onCore w t rINVALID fun s c => setLowerBounds A s c (lst l))
-  | ["set_ub", t, l] => fin (onCore w t rINVALID fun s c => setUpperBounds A s c (lst l))
-  | ["set_lb1", t, x] => fin (onCore w t rINVALID fun s c => setLowerBounds1 A s c (hx x))
-  | ["set_ub1", t, x] => fin (onCore w t rINVALID fun s c => setUpperBounds1 A s c (hx x))
-  | ["set_lbi", t, i, x] => fin (onCore w t rINVALID fun s c => setLowerBound A s c (int i) (hx x))
-  | ["set_ubi", t, i, x] => fin (onCore w t rINVALID fun s c => setUpperBound A s c (int i) (hx x))
-  | ["get_lb", t] => let (w, r, o) := onCoreOut w t fun s c => getLowerBounds s c false; finishLine w r o
-  | ["get_ub", t] => let (w, r, o) := onCoreOut w t fun s c => getUpperBounds s c false; finishLine w r o
-  | ["get_xtol_abs", t] => let (w, r, o) := onCoreOut w t fun s c => getXtolAbs s c false; finishLine w r o
-  | ["get_xw", t] => let (w, r, o) := onCoreOut w t fun s c => getXWeights s c false; finishLine w r o
-  | ["get_lb_null", t] => let (w, r, _) := onCoreOut w t fun s c => getLowerBounds s c true; finishLine w r none
-  | ["get_ub_null", t] => let (w, r, _) := onCoreOut w t fun s c => getUpperBounds s c true; finishLine w r none
-  | ["get_xtol_abs_null", t] => let (w, r, _) := onCoreOut w t fun s c => getXtolAbs s c true; finishLine w r none
-  | ["get_xw_null", t] => let (w, r, _) := onCoreOut w t fun s c => getXWeights s c true; finishLine w r none
-  | ["add_ineq", t, f, d, tol] =>
-    fin (onCore w t rINVALID fun s c => addCon w.caps.ineqOk false s c 1 false (nat f) 0 (nat d) (some [hx tol]))
-  | ["add_eq", t, f, d, tol] =>
-    fin (onCore w t rINVALID fun s c => addCon w.caps.eqOk true s c 1 false (nat f) 0 (nat d) (some [hx tol]))
-  | ["add_pineq", t, f, p, d, tol] =>
-    fin (onCore w t rINVALID fun s c => addCon w.caps.ineqOk false s c 1 false (nat f) (nat p) (nat d) (some [hx tol]))
-  | ["add_peq", t, f, p, d, tol] =>
-    fin (onCore w t rINVALID fun s c => addCon w.caps.eqOk true s c 1 false (nat f) (nat p) (nat d) (some [hx tol]))
-  | ["add_ineqm", t, m, f, d, tol] =>
-    -- NULL handle: an empty constraint is still a successful no-op
-    fin (onCore w t (if nat m = 0 then rSUCCESS else rINVALID)
-      fun s c => addCon w.caps.ineqOk false s c (nat m) true (nat f) 0 (nat d) (lst tol))
-  | ["add_eqm", t, m, f, d, tol] =>
-    fin (onCore w t (if nat m = 0 then rSUCCESS else rINVALID)
-      fun s c => addCon w.caps.eqOk true s c (nat m) true (nat f) 0 (nat d) (lst tol))
-  | ["rm_ineq", t] => fin (onCore w t rINVALID removeIneq)
-  | ["rm_eq", t] => fin (onCore w t rINVALID removeEq)
-  | ["set_stopval", t, x] => fin (onCore w t rINVALID fun s c => setScalar s c fun c => { c with stopval := hx x })
-  | ["set_ftol_rel", t, x] => fin (onCore w t rINVALID fun s c => setScalar s c fun c => { c with ftolRel := hx x })
-  | ["set_ftol_abs", t, x] => fin (onCore w t rINVALID fun s c => setScalar s c fun c => { c with ftolAbs := hx x })
-  | ["set_xtol_rel", t, x] => fin (onCore w t rINVALID fun s c => setScalar s c fun c => { c with xtolRel := hx x })
-  | ["set_xtol_abs", t, l] => fin (onCore w t rINVALID fun s c => setXtolAbs s c (lst l))
-  | ["set_xtol_abs1", t, x] => fin (onCore w t rINVALID fun s c => setXtolAbs1 s c (hx x))
-  | ["set_xw", t, l] => fin (onCore w t rINVALID fun s c => setXWeights s c (lst l))
-  | ["set_xw1", t, x] => fin (onCore w t rINVALID fun s c => setXWeights1 s c (hx x))
-  | ["set_maxeval", t, k] => fin (onCore w t rINVALID fun s c => setScalar s c fun c => { c with maxeval := int k })
-  | ["set_maxtime", t, x] => fin (onCore w t rINVALID fun s c => setScalar s c fun c => { c with maxtime := hx x })
-  | ["set_pop", t, k] => fin (onCore w t rINVALID fun s c => setScalar s c fun c => { c with pop := nat k })
-  | ["set_vs", t, k] => fin (onCore w t rINVALID fun s c => setScalar s c fun c => { c with vs := nat k })
-  | ["set_force_stop", t, k] => fin (onCore w t rINVALID fun s c => setScalar s c fun c => { c with forceStop := int k })
-  | ["force_stop", t] => fin (onCore w t rINVALID fun s c => setScalar s c fun c => { c with forceStop := 1 })
-  | ["set_dx", t, l] => fin (onCore w t rINVALID fun s c => setInitialStep s c (lst l))
-  | ["set_dx1", t, x] => fin (onCore w t rINVALID fun s c => setInitialStep1 s c (hx x))
-  | ["set_default_dx", t, l] => fin (onCore w t rINVALID fun s c => setDefaultInitialStep A s c (lst l))
-  | ["get_dx", t, l] => let (w, r, o) := onCoreOut w t fun s c => getInitialStep A s c (lst l); finishLine w r o
-  | ["set_munge", t, d, c] =>
-    match getSlot w t with
-    | none => finishLine w .void none
-    | some o => finishLine (setSlot w t (some { o with core := { o.core with mungeD := nat d ≠ 0, mungeC := nat c ≠ 0 } })) .void none
-  | ["set_param", t, nm, x] =>
-    fin (onCore w t rINVALID fun s c => setParam s c (nameArg nm) (hx x))
-  | ["set_param_long", t, x] =>
-    fin (onCore w t rINVALID fun s c => setParam s c (some (String.ofList (List.replicate 1999 'a'))) (hx x))
   | ["get_param", t, nm, x] =>
-    match getSlot w t with
-    | none => finishLine w (.text s!"{(hx x).toHex}:0") none
-    | some o => finishLine w (.text s!"{(getParam o.core (nameArg nm) (hx x)).toHex}:{b2d (hasParam o.core (nameArg nm))}") none
+    match w.get (slotArg t) with
+    | none => finishLine w s!"{(hx x).toHex}:0" false none
+    | some o => finishLine w s!"{(getParam o.core (nameArg nm) (hx x)).toHex}:{b2d (hasParam o.core (nameArg nm))}" false none
   | ["nth_param", t, k] =>
-    match getSlot w t with
-    | none => finishLine w (.text "(null)") none
-    | some o => finishLine w (.text (match o.core.params[nat k]? with | some p => p.name | none => "(null)")) none
+    match w.get (slotArg t) with
+    | none => finishLine w "(null)" false none
+    | some o => finishLine w (match o.core.params[nat k]? with | some p => p.name | none => "(null)") false none
   | ["get_scalars", t] =>
-    match getSlot w t with
-    | none => finishLine w (.text "crash") none
+    match w.get (slotArg t) with
+    | none => finishLine w "crash" false none
     | some o =>
       let c := o.core
-      finishLine w (.text (s!"alg={c.algorithm} n={c.n} stopval={c.stopval.toHex} ftol_rel={c.ftolRel.toHex} ftol_abs={c.ftolAbs.toHex}" ++
+      finishLine w (s!"alg={c.algorithm} n={c.n} stopval={c.stopval.toHex} ftol_rel={c.ftolRel.toHex} ftol_abs={c.ftolAbs.toHex}" ++
         s!" xtol_rel={c.xtolRel.toHex} maxeval={c.maxeval} maxtime={c.maxtime.toHex} numevals={c.numevals} fstop={c.forceStop}" ++
-        s!" pop={c.pop} vs={c.vs} nparams={c.params.length}")) none
-  | ["set_local", t, l] =>
-    match getSlot w t with
-    | none => finishLine w (.code rINVALID) none
-    | some o =>
-      let (s, o', r) := setLocalOptimizer A w.as o (getSlot w l)
-      finishLine (setSlot { w with as := s } t (some o')) (.code r) none
+        s!" pop={c.pop} vs={c.vs} nparams={c.params.length}") false none
   | ["end"] =>
-    -- destroy every live object in slot order; report blocks still live afterwards
     let s := w.slots.foldl (fun s o => match o with | some o => destroy s o | none => s) w.as
     let w' : World := { w with as := s, slots := List.replicate 8 none }
     let evs := "[" ++ ",".intercalate (s.evs.map (evStr w')) ++ "]"
     ({ w' with as := { s with evs := [] } }, s!"end leaks={s.live.length} ev={evs}")
   | [] => (w, "")
-  | _ => (w, "bad-op")
+  | _ =>
+    match parseOp toks with
+    | none => (w, "bad-op")
+    | some op =>
+      match op with
+      | .oracle _ | .mcfail _ => ((applyOp A w op).1, "-")
+      | _ =>
+        let (w', r, out) := applyOp A w op
+        let out := match op with
+          | .getLb _ true | .getUb _ true | .getXtolAbs _ true | .getXw _ true => none
+          | _ => out
+        let (head, c1) := match r with
+          | .code c => (toString c, c == 1)
+          | .ptr ok => (if ok then "ptr" else "null", false)
+          | .void => ("-", false)
+        finishLine w' head c1 out
 
 end Nlopt.ApiDrv
